@@ -1,8 +1,10 @@
 """All translators: (generated file name, function(repo) -> (coq text, info))."""
 import backoff
+import topicname
 
 GENERATORS = [
     ('Backoff.v', backoff.generate),
+    ('TopicRegex.v', topicname.generate),
 ]
 
 if __name__ == '__main__':
